@@ -3,6 +3,7 @@ package protoprint
 import (
 	"fmt"
 	"slices"
+	"strconv"
 	"strings"
 
 	"github.com/pentops/j5/internal/j5s/protoprint/optionreflect"
@@ -215,6 +216,19 @@ func (fb *fileBuilder) printFieldStyle(name string, number int32, elem protorefl
 		return err
 	}
 
+	if field, ok := elem.(protoreflect.FieldDescriptor); ok && !field.IsExtension() {
+		// the JSON name is part of the field, it is lost unless printed when it
+		// is not the one the parser derives from the field name.
+		if jsonName := field.JSONName(); jsonName != defaultJSONName(string(field.Name())) {
+			quoted := strconv.Quote(jsonName)
+			options = append(options, parsedOption{
+				inline:        true,
+				inlineString:  &quoted,
+				qualifiedName: "json_name",
+			})
+		}
+	}
+
 	fb.leadingComments(srcLoc)
 
 	if len(options) == 0 {
@@ -253,4 +267,22 @@ func (fb *fileBuilder) printFieldStyle(name string, number int32, elem protorefl
 	fb.trailingComments(srcLoc)
 
 	return nil
+}
+
+// defaultJSONName is the JSON name protoc derives from a field name: underscores
+// are dropped and the lower case letter following one is capitalized.
+func defaultJSONName(name string) string {
+	out := make([]byte, 0, len(name))
+	wasUnderscore := false
+	for i := 0; i < len(name); i++ {
+		c := name[i]
+		if c != '_' {
+			if wasUnderscore && 'a' <= c && c <= 'z' {
+				c -= 'a' - 'A'
+			}
+			out = append(out, c)
+		}
+		wasUnderscore = c == '_'
+	}
+	return string(out)
 }
